@@ -258,6 +258,10 @@ class RearrivalAtRunningTask(Monitor):
             try:
                 if run.c.graph.has_barrier(s["id"]):
                     continue
+                # by the definition alone a multi-referenced task outside a cycle gets a route of its own per arrival:
+                # two executions sharing a route there is not this finding (whatever the engine's route table says)
+                if run.c.spec.tasks.is_split_task(s["id"]) and not run.c.graph.in_cycle(s["id"]):
+                    continue
             except Exception:
                 continue
             key = (s["id"], s["route"])
